@@ -402,6 +402,9 @@ class Interval(NominalValueMixin):
     def __pow__(self, other):
         otherType = other.__class__.__name__
         if otherType in INTEGERS:
+            if other < 0:
+                # x**(-k) = 1 / x**k; the reciprocal raises ZeroDivisionError when 0 is in x
+                return 1 / self ** (-other)
             a, b = numpy.asarray(self.lo**other), numpy.asarray(
                 self.hi**other
             )  # a2,b2 = a**2, b**2
